@@ -35,8 +35,9 @@ GEAR_ADDR, DEV_ADDR = 3, 5
 class MemHarness:
     """One unit (gear or device) + bystander, with tick / fault choice points."""
 
-    def __init__(self, fam, bname, image, last, holes, chooser=None, ticks=False, faults=True, lock_byte=0xFF):
+    def __init__(self, fam, bname, image, last, holes, chooser=None, ticks=False, faults=True, lock_byte=0xFF, sa=None):
         self.fam, self.chooser = fam, chooser
+        self.sa = sa if sa is not None else (GEAR_ADDR if fam == "gear" else DEV_ADDR)
         self.bank = MI.make_bank(bname, image, last, holes, lock_byte=lock_byte)
         other = MI.make_bank("BANK_1" if bname != "BANK_1" else "BANK_207", "a5")
         other.cells = [0x5A if (c is not None and i > 2) else c for i, c in enumerate(other.cells)]
@@ -45,11 +46,11 @@ class MemHarness:
             banks[other.number] = other
         by = MI.make_bank(bname, "zero")
         if fam == "gear":
-            self.unit = G.Gear(short=GEAR_ADDR, banks=banks)
-            self.bus = G.Bus([self.unit, G.Gear(short=GEAR_ADDR + 1, banks={by.number: by})])
+            self.unit = G.Gear(short=self.sa, banks=banks)
+            self.bus = G.Bus([self.unit, G.Gear(short=(self.sa + 1) % 64, banks={by.number: by})])
         else:
-            self.unit = D.Device(short=DEV_ADDR, banks=banks)
-            self.bus = D.Bus24([self.unit, D.Device(short=DEV_ADDR + 1, banks={by.number: by})])
+            self.unit = D.Device(short=self.sa, banks=banks)
+            self.bus = D.Bus24([self.unit, D.Device(short=(self.sa + 1) % 64, banks={by.number: by})])
         self.ticks, self.faults = ticks, faults
         self.reads = []         # (bank, location, answer given to the sequence) per READ MEMORY LOCATION
         self.latched_at = None  # image copy when the latch byte became 0xAA
@@ -59,7 +60,7 @@ class MemHarness:
 
     def addr(self):
         from dali.address import GearShort, DeviceShort
-        return GearShort(GEAR_ADDR) if self.fam == "gear" else DeviceShort(DEV_ADDR)
+        return GearShort(self.sa) if self.fam == "gear" else DeviceShort(self.sa)
 
     def execute(self, cmd):
         from dali import frame as F
@@ -164,7 +165,7 @@ def run_single(cfg, ch):
     vals = lib_values()
     row = M.by_name()[(cfg["bank"], cfg["name"])]
     cls = vals[(cfg["bank"], cfg["name"])]
-    h = MemHarness(cfg["fam"], cfg["bank"], cfg["image"], cfg["last"], cfg["holes"], ch, ticks=False, faults=True)
+    h = MemHarness(cfg["fam"], cfg["bank"], cfg["image"], cfg["last"], cfg["holes"], ch, ticks=False, faults=True, sa=cfg.get("sa"))
     mode = cfg["mode"]
     seq = getattr(cls, mode)(h.addr())
     kind, val, n = G.run_sequence(seq, h, 600)
@@ -263,7 +264,7 @@ def run_all(cfg, ch):
     mod = M.BANKS[cfg["bank"]][0]
     bank = getattr(importlib.import_module("dali.memory." + mod), cfg["bank"])
     h = MemHarness(cfg["fam"], cfg["bank"], cfg["image"], cfg["last"], cfg["holes"], ch, ticks=cfg["ticks"], faults=True,
-                   lock_byte=cfg.get("lock_byte", 0xFF))
+                   lock_byte=cfg.get("lock_byte", 0xFF), sa=cfg.get("sa"))
     seq = bank.read_all(h.addr(), use_latch=cfg["use_latch"])
     kind, val, n = G.run_sequence(seq, h, 900)
     return h, kind, val, n
@@ -307,12 +308,45 @@ def shards(tier):
         for fam in ("gear", "device"):
             for latch in (True, False):
                 out.append(("all", bname, fam, latch, tier))
+    for a0 in range(0, 64, 16):
+        out.append(("addr_sweep", a0, a0 + 16))
     return out
+
+
+def run_addr_sweep(res, lo, hi):
+    """The same reads addressed to EVERY short address (gear and device): nothing may depend on which unit is read."""
+    singles = [("BANK_0", "GTIN"), ("BANK_0", "LastAddress"), ("BANK_1", "LuminaireColor"), ("BANK_205", "ControlGearTemperature"),
+               ("BANK_202", "ActiveEnergy")]
+    byname = M.by_name()
+    singles = [k for k in singles if k in byname] or list(byname)[:4]
+    for sa in range(lo, hi):
+        for fam in ("gear", "device"):
+            for bname, name in singles:
+                row = byname[(bname, name)]
+                for mode in ("read", "read_raw", "is_addressable"):
+                    cfg = dict(bank=bname, name=name, image="rnd1", last=None, holes=[], fam=fam, mode=mode, sa=sa)
+                    for ch, obs in explore(lambda c: run_single(cfg, c), bound=1 if mode == "read" else 0):
+                        h, row_, kind, val, n = obs
+                        judge_single(res, cfg, h, row, kind, val, mode)
+                        res["evaluations"] += 1
+                        res["transitions"] += n
+            for bname in ("BANK_0", "BANK_202"):
+                for latch in (True, False):
+                    cfg = dict(bank=bname, fam=fam, image="rnd1", last=None, holes=[], use_latch=latch, ticks=False, sa=sa)
+                    h, kind, val, n = run_all(cfg, None)
+                    judge_all(res, cfg, h, kind, val, n)
+                    res["evaluations"] += 1
+                    res["transitions"] += n
+    res["distinct"].add(("addr_sweep", lo))
+    sample(res, {"address_sweep": [lo, hi - 1], "families": ["gear", "device"]})
 
 
 def run_shard(shard):
     res = new_result()
     k = shard[0]
+    if k == "addr_sweep":
+        run_addr_sweep(res, shard[1], shard[2])
+        return res
     if k == "single":
         _, bname, name, tier = shard
         row = M.by_name()[(bname, name)]
